@@ -301,8 +301,27 @@ def arnoldi_json(out):
     return {'H': c2j(H), 'Hshape': list(np.shape(H)), 'V': c2j(np.asarray(V).T), 'Vshape': list(np.shape(V))}
 
 
-def thr_of(n):
-    return 100 * n * np.finfo(float).eps
+def thr_of(n, mag=1.0):
+    """breakdown tolerance of lanczos_iteration / arnoldi_iteration: 100 n eps max(1, max_i |(A v0)_i|)"""
+    return 100 * n * np.finfo(float).eps * max(1.0, float(mag))
+
+
+def case_mag(case):
+    """max_i |(A v0)_i| for the normalised start vector, computed exactly as krylov.py does (V[0] is a complex row)"""
+    A, v = make_arrays(case)
+    v = np.asarray(v)
+    nv = np.linalg.norm(v)
+    if not nv > 0:
+        return 1.0
+    V0 = np.zeros(len(v), dtype=complex)
+    V0[:] = v / nv
+    af = case.get('afunc')
+    w = V0 if af == 'identity-alias' else (V0[::-1] if af == 'reverse-view' else A @ V0)
+    return float(np.max(np.abs(w))) if len(w) else 1.0
+
+
+def case_thr(case):
+    return thr_of(len(case['v']), case_mag(case))
 
 
 def case_scale(case):
@@ -311,10 +330,10 @@ def case_scale(case):
     return float(a) if a > 0 else 1.0
 
 
-def ambiguous(norms, n, scale=1.0):
+def ambiguous(norms, n, scale=1.0, thr=None):
     """a loop norm close to (but not below) the breakdown threshold: floating point noise decides. The test of the code is
     absolute (100 n eps); rounding noise and genuine residuals both scale with the operator, hence the window does too"""
-    t = thr_of(n)
+    t = thr_of(n) if thr is None else thr
     return any(t <= b < THR_AMBIG * scale for b in norms[1:])
 
 
@@ -408,7 +427,7 @@ def rel_arnoldi(A, v, m, r, d, tol=1e-8):
 def lanczos_args(case, lz, norms):
     """tol thr A rs ... for check_lanczos and friends"""
     A = j2c(case['A'])
-    return 'QcF tol9 %s %s %s' % (qd(thr_of(len(case['v']))), cmat(A), qdlist(norms))
+    return 'QcF tol9 %s %s %s' % (qd(case_thr(case)), cmat(A), qdlist(norms))
 
 
 def lanczos_out(lz, warn):
